@@ -70,6 +70,8 @@ def _via(prefix):
             via.add("write")
         if c["op"] == "setrlimit":
             via.add("rlimit")
+        if c["op"] == "open" and "rlimit" in via and set(c.get("fl", [])) & {"C", "T"}:
+            via.add("rlimit-creat")      # may have failed with EMFILE and still touched the file
     return via
 
 
@@ -109,6 +111,8 @@ def classify(sys_, call, target, exp, obs, via, last_main=None):
         return "open-emfile-side-effect"
     if "symlink" in via:
         return "after-symlink-open"
+    if "rlimit-creat" in via:
+        return "open-emfile-side-effect"
     if "opendir" in via and (target == "closed" or (exp.get("k") == obs.get("k") and exp.get("k") in ("fd", "pipe"))):
         return "after-opendir"
     return ""
